@@ -989,3 +989,18 @@ class _Lazy(dict):
 
     def get_or_entry(self, key):
         return self[key]
+
+
+class CfgPruner(DimFlow):
+    """only the configuration machinery of DimFlow: which CFG edges exist under an assumption {atom: truth}
+    (used by other path analyses of checks/c07.py that must not merge two configurations)"""
+
+    def prepare(self):
+        cfg = self.fn.cfg
+        self._bid = {id(blk): b for b, blk in cfg.blocks.items()}
+        self.reach = self.propagate_flags()
+        for b in self.reach:
+            blk = cfg.blocks[b]
+            for pos in range(len(blk.get("succ", []))):
+                self.edge_allowed(blk, pos)           # (also collects the free atoms of every reachable test)
+        return self
